@@ -23,12 +23,15 @@ from codec_terms import q
 
 THEOREMS = ["C05_write_json_generic", "C05_json_conforms", "C05_json_no_nonconforming_row", "C05_json_env_ok",
             "C05_write_json_object", "C05_write_json_store_partial", "C05_leaf_hypotheses",
-            "C05_conforms_rejects_swapped_members", "C05_conforms_rejects_null_member", "C05_example"]
+            "C05_conforms_rejects_swapped_members", "C05_conforms_rejects_null_member",
+            "C05_conforms_rejects_swapped_literals", "C05_spec_tables_use_sdk_reader", "C05_spec_documents_conform",
+            "C05_read_json_compat", "C05_read_json_partial", "C05_read_json_explicit_defaults_partial",
+            "C05_read_enum_literals_refuted", "C05_read_example", "C05_example"]
 THEOREMS_X = ["C05_write_xml_generic", "C05_xml_conforms", "C05_xml_env_ok", "C05_write_xml_store_shape",
               "C05_xconforms_rejects_swapped_order", "C05_xml_example"]
 VO = ["theories/props/C05.vo", "theories/props/C05x.vo", "theories/model/SchemaObs.vo", "theories/model/SchemaXmlObs.vo"]
 PRELUDE_J = ("From Coq Require Import List ZArith String NArith.\n"
-             "From Basyx Require Import model.Codec model.CodecObs model.SchemaBase model.Schema model.SchemaObs "
+             "From Basyx Require Import model.Codec model.CodecSpec model.CodecObs model.SchemaBase model.Schema model.SchemaObs "
              "gen.Gen_JsonRules gen.Gen_Schema.\nOpen Scope string_scope.")
 PRELUDE_X = ("From Coq Require Import List ZArith String NArith.\n"
              "From Basyx Require Import model.SchemaBase model.XmlCodec model.SchemaXml model.SchemaXmlObs "
@@ -320,6 +323,7 @@ def read_oracle(chk, judges, twin, t, rng, store, i):
         knobs, vsig = variants(rng, canons)
         if knobs is not None:
             jobs.append((canons, knobs, vsig))
+    baseline_failed = set()
     for canons, knobs, vsig in jobs:
         canons = [c05_spec.norm(c) for c in canons]
         exp = {c["id"]: c for c in canons}
@@ -327,6 +331,8 @@ def read_oracle(chk, judges, twin, t, rng, store, i):
             if vsig and ((fmt == "json" and vsig[2] in ("whitespace-collapse", "numeric-literal", "namespace-prefix"))
                          or (fmt == "xml" and vsig[2] == "member-order")):
                 continue
+            if vsig and fmt in baseline_failed:
+                continue                  # the plain document of this store already fails: reported under its own signature
             iw = c05_spec.IndependentWriter(t, dict(knobs))
             try:
                 if fmt == "json":
@@ -359,6 +365,8 @@ def read_oracle(chk, judges, twin, t, rng, store, i):
                     problem += f" <- {type(cause).__name__}: {str(cause)[:120]}"
                     cause = cause.__cause__
             if problem:
+                if vsig is None:
+                    baseline_failed.add(fmt)
                 if vsig:
                     s = f"C05:read:{fmt}:{vsig[0]}:{vsig[1]}:{vsig[2]}"
                 else:
@@ -431,7 +439,7 @@ def write_oracle(chk, judges, twin, store, i, strings):
 def run(chk):
     rng = chk.rng
     quick = chk.tier == "quick"
-    n_store, n_jcases, n_xcases, n_read = (240, 260, 160, 150) if quick else (3000, 2400, 1200, 2000)
+    n_store, n_jcases, n_xcases, n_read = (200, 240, 150, 130) if quick else (2400, 1800, 900, 1500)
     gen_ok = regenerate(chk)
     if gen_ok:
         ok = chk.theorems("props.C05", THEOREMS, VO)
@@ -448,8 +456,12 @@ def run(chk):
                            re.sub(r"\s+", " ", rows)[:2500])
         if not ok:
             common.coq_make(["theories/gen/Gen_Schema.vo", "theories/gen/Gen_JsonRules.vo"])
-            rows = common.coq_eval("C05rows", PRELUDE_J, "nonconforming json_tables json_schema json_smeta json_triples")
-            chk.tie_broken("nonconforming-rows", re.sub(r"\s+", " ", rows)[:2000])
+            rows = common.coq_eval("C05rows", PRELUDE_J, "(nonconforming json_tables json_schema json_smeta json_triples spec_xsd_names, "
+                                   "incompatible_rows (mix spec_w_min json_tables) json_meta, "
+                                   "incompatible_rows (mix spec_w_explicit json_tables) json_meta, "
+                                   "unread_literals json_tables json_schema json_smeta json_triples)")
+            chk.tie_broken("nonconforming-rows / incompatible reader rows (min, explicit) / unread literals",
+                           re.sub(r"\s+", " ", rows)[:2500])
     else:
         for t in THEOREMS + THEOREMS_X:
             chk.obligations.append((t, "not-checked", []))
